@@ -371,7 +371,15 @@ func cmdReplay(args []string) int {
 				fmt.Println(clip(r.stderr, 4000))
 			}
 			if rf.Violation != nil && sig != rf.Violation.Signature {
-				return 3
+				// the run kills its process again, but in another way (the race
+				// detector keeps a bounded access history and can miss the race
+				// it reported before, after which the run dies of what the race
+				// leads to): still the recorded violation -- the process does
+				// not survive this run
+				if a, b := strings.LastIndex(sig, "|"), strings.LastIndex(rf.Violation.Signature, "|"); a < 0 || b < 0 || sig[:a] != rf.Violation.Signature[:b] {
+					return 3
+				}
+				fmt.Printf("  (recorded as %s)\n", rf.Violation.Signature)
 			}
 			fmt.Printf("VIOLATION property=%s replay=%s\n", rf.Property, *file)
 			return 1
